@@ -34,11 +34,11 @@ pub fn elog(s: &str) {
 
 /// shuttle prints to stderr on every deadlock it reports; a defect that deadlocks on every
 /// schedule would print millions of lines. fd 2 is pointed at /dev/null while exploring.
-struct Muted {
+pub struct Muted {
     saved: i32,
 }
 impl Muted {
-    fn new() -> Option<Muted> {
+    pub fn new() -> Option<Muted> {
         if std::env::var("VSCHED_LOUD").is_ok() {
             return None;
         }
@@ -158,7 +158,7 @@ fn run_c22(cli: &vx::Cli) -> i32 {
     rep.note("iterative_context_bounding_plan", json!({"budget_predicted_schedules_per_configuration": plan.budget, "max_bound_jobs_le_2": plan.max_bound_small, "max_bound_jobs_3": plan.max_bound_n3}));
     let single = cli.rest.iter().any(|a| a == "--cfg");
     // guard against a runaway run only (quick is planned for well under a minute, thorough under 15)
-    let deadline = bdfs::deadline(if thorough { 45 * 60 } else { 15 * 60 });
+    let deadline = bdfs::deadline(if thorough { 14 * 60 } else { 120 });
     let out = {
         let _m = Muted::new();
         if single {
@@ -287,6 +287,9 @@ fn replay_c22(mut rep: vx::Report, path: &std::path::Path) -> i32 {
     if let Some(f) = &acc.fatal {
         println!("MACHINERY-ERROR property=C22 replay diverged: {f}");
         return 2;
+    }
+    for n in &acc.notes {
+        println!("note: {n}");
     }
     for (k, v) in &acc.viol {
         println!("violation key={k} detail={}", v.detail);
